@@ -65,7 +65,8 @@ def validate_table(ap):
 
 
 def literals_in(path, clsname, funcs):
-    """string literals used in comparisons / membership tests / endswith / tuple heads, per function"""
+    """string literals used in comparisons / membership tests / endswith / tuple heads, and the named
+    constant tables of membership tests (`in:NAME`), per function"""
     with open(path, encoding='utf-8') as f:
         tree = pyast.parse(f.read())
     out = []
@@ -76,6 +77,14 @@ def literals_in(path, clsname, funcs):
                     found = []
                     for n in pyast.walk(fn):
                         if isinstance(n, pyast.Compare):
+                            # membership tests against a named constant table (`x not in TRANSFER_OPTIONS`,
+                            # `t not in ast.BASIC_TYPES`): the guard itself is part of the pinned shape
+                            for op, c in zip(n.ops, n.comparators):
+                                if isinstance(op, (pyast.In, pyast.NotIn)):
+                                    nm = c.id if isinstance(c, pyast.Name) else (
+                                        c.attr if isinstance(c, pyast.Attribute) else '')
+                                    if nm and nm.upper() == nm:
+                                        found.append('in:' + nm)
                             for c in [n.left] + list(n.comparators):
                                 for s in pyast.walk(c):
                                     if isinstance(s, pyast.Constant) and isinstance(s.value, str):
